@@ -42,6 +42,141 @@ package jlib
 //@   ensures [C18:negative-is-error] x < 0.0 ==> r1 != nil
 //@   ensures [C10:finite-or-error] (finite(x) && r1 == nil) ==> finite(r0)
 
+// --- C15: aggregates and array functions -------------------------------------------------------------------------------
+// $max / $min: a lone number is itself; an empty array has no value (ErrUndefined); a member that is not a number is
+// an error, whatever its position; otherwise the result is a member and no member is larger / smaller
+// (stated for float64 members, the representation JSON numbers have).
+//@ pred allF64(v reflect.Value) = forall k in [0, rvlen(v)): kind(res(at(v, k))) == 14
+//@ func arrayify
+//@   props C15 C09
+//@   requires ifaceable(v)
+//@   ensures arrKind(kind(result)) && canif(result)
+//@   ensures arrKind(kind(res(v))) ==> result == res(v)
+//@   ensures !valid(v) ==> rvlen(result) == 0
+//@   ensures (valid(v) && !arrKind(kind(res(v)))) ==> rvlen(result) == 1
+//@   assigns nothing
+//@ func Max
+//@   props C15 C09
+//@   ensures [C15:lone-number-is-itself] (!arrKind(kind(res(v))) && kind(res(v)) == 14) ==> (r1 == nil && same(r0, fval(res(v))))
+//@   ensures [C15:not-a-number-is-error] (!arrKind(kind(res(v))) && !numKind(kind(res(v)))) ==> r1 != nil
+//@   ensures [C15:empty-has-no-value] (arrKind(kind(res(v))) && rvlen(res(v)) == 0) ==> r1 == jtypes.ErrUndefined
+//@   ensures [C15:non-number-member-is-error] (arrKind(kind(res(v))) && (exists k in [0, rvlen(res(v))): !numKind(kind(res(at(res(v), k)))))) ==> r1 != nil
+//@   ensures [C15:no-member-is-larger] (arrKind(kind(res(v))) && r1 == nil && allF64(res(v))) ==> (forall k in [0, rvlen(res(v))): !(fval(res(at(res(v), k))) > r0))
+//@   assigns nothing
+//@   loop 0 invariant 0 <= i && i <= rvlen(v) && v == res(old(v)) && arrKind(kind(v)) && rvlen(v) > 0
+//@   loop 0 invariant forall k in [0, i): numKind(kind(res(at(v, k))))
+//@   loop 0 invariant allF64(v) ==> ((forall k in [0, i): !(fval(res(at(v, k))) > max)) && (i > 0 ==> (exists k in [0, i): same(max, fval(res(at(v, k)))))))
+//@ func Min
+//@   props C15 C09
+//@   ensures [C15:lone-number-is-itself] (!arrKind(kind(res(v))) && kind(res(v)) == 14) ==> (r1 == nil && same(r0, fval(res(v))))
+//@   ensures [C15:empty-has-no-value] (arrKind(kind(res(v))) && rvlen(res(v)) == 0) ==> r1 == jtypes.ErrUndefined
+//@   ensures [C15:non-number-member-is-error] (arrKind(kind(res(v))) && (exists k in [0, rvlen(res(v))): !numKind(kind(res(at(res(v), k)))))) ==> r1 != nil
+//@   ensures [C15:no-member-is-smaller] (arrKind(kind(res(v))) && r1 == nil && allF64(res(v))) ==> (forall k in [0, rvlen(res(v))): !(fval(res(at(res(v), k))) < r0))
+//@   assigns nothing
+//@   loop 0 invariant 0 <= i && i <= rvlen(v) && v == res(old(v)) && arrKind(kind(v)) && rvlen(v) > 0
+//@   loop 0 invariant forall k in [0, i): numKind(kind(res(at(v, k))))
+//@   loop 0 invariant allF64(v) ==> ((forall k in [0, i): !(fval(res(at(v, k))) < min)) && (i > 0 ==> (exists k in [0, i): same(min, fval(res(at(v, k)))))))
+//@ func Sum
+//@   props C15 C09
+//@   abstract-float
+//@   ensures [C15:lone-number-is-itself] (!arrKind(kind(res(v))) && kind(res(v)) == 14) ==> (r1 == nil && same(r0, fval(res(v))))
+//@   ensures [C15:empty-sum-is-zero] (arrKind(kind(res(v))) && rvlen(res(v)) == 0) ==> (r1 == nil && r0 == 0.0)
+//@   ensures [C15:non-number-member-is-error] (arrKind(kind(res(v))) && (exists k in [0, rvlen(res(v))): !numKind(kind(res(at(res(v), k)))))) ==> r1 != nil
+//@   ensures [C15:all-numbers-is-no-error] (arrKind(kind(res(v))) && (forall k in [0, rvlen(res(v))): numKind(kind(res(at(res(v), k)))))) ==> r1 == nil
+//@   assigns nothing
+//@   loop 0 invariant 0 <= i && i <= rvlen(v) && v == res(old(v)) && arrKind(kind(v)) && (rvlen(v) == 0 ==> sum == 0.0)
+//@   loop 0 invariant forall k in [0, i): numKind(kind(res(at(v, k))))
+//@ func Average
+//@   props C15 C09
+//@   abstract-float
+//@   ensures [C15:empty-has-no-value] (arrKind(kind(res(v))) && rvlen(res(v)) == 0) ==> r1 == jtypes.ErrUndefined
+//@   ensures [C15:non-number-member-is-error] (arrKind(kind(res(v))) && (exists k in [0, rvlen(res(v))): !numKind(kind(res(at(res(v), k)))))) ==> r1 != nil
+//@   assigns nothing
+//@   loop 0 invariant 0 <= i && i <= rvlen(v) && v == res(old(v)) && arrKind(kind(v)) && rvlen(v) > 0
+//@   loop 0 invariant forall k in [0, i): numKind(kind(res(at(v, k))))
+
+// $count: members of an array, 1 for any other value, 0 for no value
+//@ func Count
+//@   props C15 C09
+//@   ensures [C15:count] result == (arrKind(kind(res(v))) ? rvlen(res(v)) : (valid(res(v)) ? 1 : 0))
+//@   assigns nothing
+
+// $reverse: one pass from the last member to the first; $append: first argument's members then the second's
+//@ func Reverse
+//@   props C15 C09
+//@   requires ifaceable(v)
+//@   ensures r1 == nil
+//@   loop 0 invariant -1 <= i && i < length && length == rvlen(v) && arrKind(kind(v)) && canif(v) && kind(results) == 23 && canif(results) && rvlen(results) == length - 1 - i
+//@ func arrayLen
+//@   props C15 C09
+//@   requires !wraps(v)
+//@   ensures result == (arrKind(kind(v)) ? rvlen(v) : 0) && 0 <= result
+//@   assigns nothing
+//@ func forceArray
+//@   props C15 C09
+//@   ensures !valid(res(v)) ==> !valid(result)
+//@   ensures arrKind(kind(res(v))) ==> result == res(v)
+//@   ensures (valid(res(v)) && !arrKind(kind(res(v)))) ==> (kind(result) == 23 && rvlen(result) == 1)
+//@   ensures (valid(v) && canif(v) && valid(result)) ==> canif(result)
+//@   assigns nothing
+
+// $zip: as many tuples as the shortest argument has members (a non-array argument is a one-member array, an absent
+// one makes the result empty), each tuple holding one member per argument.
+//@ func Zip
+//@   props C15 C09
+//@   opaque-arith
+//@   requires forall k in [0, len(vs)): ifaceable(vs[k])
+//@   ensures [C15:no-arguments-is-error] len(vs) == 0 ==> r1 != nil
+//@   atif[C15:shortest-argument-wins] "arrayLen(vs[i]) < size" iff ret("arrayLen#0", 0) < size
+//@   atif[C15:first-argument-sets-the-size] "i == 0" iff i == 0
+//@   loop 0 invariant 0 <= i && i <= len(vs) && 0 <= size && (forall k in [0, i): (arrKind(kind(vs[k])) && canif(vs[k]) && size <= rvlen(vs[k])))
+//@   loop 0 invariant forall k in [i, len(vs)): ifaceable(vs[k])
+//@   loop 1 invariant 0 <= i && i <= size && len(result) == size && (forall k in [0, len(vs)): (arrKind(kind(vs[k])) && canif(vs[k]) && size <= rvlen(vs[k])))
+//@   loop 2 invariant 0 <= j && j <= len(vs) && len(inner) == len(vs) && 0 <= i && i < size && len(result) == size && (forall k in [0, len(vs)): (arrKind(kind(vs[k])) && canif(vs[k]) && size <= rvlen(vs[k])))
+
+// $distinct: first occurrences, compared by value (the set of seen values is a Go map keyed by the value itself, so
+// every key must be hashable: obligation class `hashable`)
+//@ func Distinct
+//@   props C15 C09
+//@   requires ifaceable(v)
+//@   loop 0 invariant 0 <= i && arrKind(kind(items)) && canif(items) && visited != nil && kind(distinctValues) == 23 && canif(distinctValues)
+
+// $map / $filter / $reduce / $single: the function is called on the members in order with (value, index, whole
+// array) trimmed to its arity (1..3); $map keeps the present results, $filter the members whose result is truthy
+// (always a list, possibly empty - $single inspects its type), $reduce needs a two-parameter function.
+//@ func clamp
+//@   props C15 C09
+//@   ensures [C15:clamped] result == (n < min ? min : (n > max ? max : n))
+//@   assigns nothing
+//@ func Map
+//@   props C15 C09
+//@   opaque-arith
+//@   requires f != nil && ifaceable(v)
+//@   ensures [C15:error-has-no-result] r1 != nil ==> r0 == nil
+//@   ensures [C15:list-result] r1 == nil ==> typeis(r0, "[]interface {}")
+//@   atcall[C15:value-index-array-trimmed-to-arity] iface:Call#0 requires callee_recv == f && len(callee_arg1) == argc && 1 <= argc && argc <= 3
+//@   atif[C15:absent-results-dropped] "res.IsValid()" iff valid(ret("iface:Call#0", 0))
+//@   loop 0 invariant 0 <= i && !wraps(v) && (valid(v) ==> (arrKind(kind(v)) && canif(v))) && 1 <= argc && argc <= 3
+//@ func Filter
+//@   props C15 C09
+//@   opaque-arith
+//@   requires f != nil && ifaceable(v)
+//@   ensures [C15:error-has-no-result] r1 != nil ==> r0 == nil
+//@   ensures [C15:always-a-list] r1 == nil ==> typeis(r0, "[]interface {}")
+//@   atcall[C15:value-index-array-trimmed-to-arity] iface:Call#0 requires callee_recv == f && len(callee_arg1) == argc && 1 <= argc && argc <= 3 && callee_arg1[0] == item
+//@   atif[C15:truthy-members-kept] "Boolean(res)" iff ufb_truthy(ret("iface:Call#0", 0))
+//@   loop 0 invariant 0 <= i && !wraps(v) && (valid(v) ==> (arrKind(kind(v)) && canif(v))) && 1 <= argc && argc <= 3
+//@ func Reduce
+//@   props C15 C09
+//@   requires f != nil && ifaceable(v)
+//@   ensures [C15:needs-two-parameter-function] ret("iface:ParamCount#0", 0) != 2 ==> r1 != nil
+//@   ensures [C15:error-has-no-result] r1 != nil ==> r0 == nil
+//@   loop 0 invariant 0 <= i && !wraps(v) && (valid(v) ==> (arrKind(kind(v)) && canif(v))) && err == nil
+//@ func Single
+//@   props C15 C09
+//@   requires f != nil && ifaceable(v)
+//@   ensures [C15:filter-error-propagates] ret("Filter#0", 1) != nil ==> (r0 == nil && r1 == ret("Filter#0", 1))
+
 // --- C13: $sort ------------------------------------------------------------------------------------------
 // $sort(a) on an all-number / all-string array: the members are collected in order (every one of them a float64 /
 // a string, which is what the comparison closures assert), then ordered by sort.SliceStable (trusted: stable) with
